@@ -2124,8 +2124,14 @@ def rule_d23(toks, log):
             continue
         pat, expr, k, b, e = h
         shape = ['.', 'drain', '(', '..', ')', '.', 'rev', '(', ')']
-        if not (len(expr) == 10 and expr[0][0] == 'id' and all(_is(x, y) for x, y in zip(expr[1:], shape))
-                and not any(x[2] for x in expr)):
+        fwd = False
+        if len(expr) == 6 and expr[0][0] == 'id' and all(_is(x, y) for x, y in zip(expr[1:], shape[:5])) \
+                and not any(x[2] for x in expr):
+            # D23b: the same traversal from the front (`V.drain(..)` without `.rev()`): the k-th item is what the k-th
+            # `V.remove(0)` returns
+            fwd = True
+        elif not (len(expr) == 10 and expr[0][0] == 'id' and all(_is(x, y) for x, y in zip(expr[1:], shape))
+                  and not any(x[2] for x in expr)):
             i += 1
             continue
         v = expr[0][1]
@@ -2135,9 +2141,14 @@ def rule_d23(toks, log):
         if not bound or later:
             raise Unsupported('D23: `%s` is not a `let mut` local that dies with the loop' % v)
         head = toks_of('while %s . len ( ) > 0' % v, False)
-        inner = toks_of('let %s = %s . pop ( ) . unwrap ( ) ;' % (_txt(pat), v), False)
-        log.append('D23 `for %s in %s` -> `while %s.len() > 0 { let %s = %s.pop().unwrap(); .. }`' % (
-            _txt(pat), _txt(expr), v, _txt(pat), v))
+        if fwd:
+            inner = toks_of('let %s = %s . remove ( 0 ) ;' % (_txt(pat), v), False)
+            log.append('D23b `for %s in %s` -> `while %s.len() > 0 { let %s = %s.remove(0); .. }`' % (
+                _txt(pat), _txt(expr), v, _txt(pat), v))
+        else:
+            inner = toks_of('let %s = %s . pop ( ) . unwrap ( ) ;' % (_txt(pat), v), False)
+            log.append('D23 `for %s in %s` -> `while %s.len() > 0 { let %s = %s.pop().unwrap(); .. }`' % (
+                _txt(pat), _txt(expr), v, _txt(pat), v))
         out = out[:i] + head + out[k:b + 1] + inner + out[b + 1:]
         i += len(head)
     return out
